@@ -286,7 +286,7 @@ esl_sq_Copy(const ESL_SQ *src, ESL_SQ *dst)
     ESL_ALLOC(dst->xr,     sizeof(char *) * dst->nxr);
     
     for (x = 0; x < dst->nxr; x++) {
-      ESL_ALLOC(dst->xr_tag[x], sizeof(char) * src->nalloc);
+      ESL_ALLOC(dst->xr_tag[x], sizeof(char) * ((src->xr_tag[x] ? strlen(src->xr_tag[x]) : 0) + 1));  /* sized by the tag, not by the name */
       ESL_ALLOC(dst->xr[x],     sizeof(char) * src->salloc);
     }
   }
